@@ -85,6 +85,7 @@ def normalize_helpers(prog, config="default"):
     from .roles import Roles, ROLES
     if inline.load_baseline(config) is None:
         return []
+    reordered = inline.normalize_param_order(prog, config)
     R = Roles(prog)
     protect = set()
     for r in ROLES:
@@ -94,11 +95,13 @@ def normalize_helpers(prog, config="default"):
             f = None
         if f is not None:
             protect.add(f.id)
-    done = inline.normalize(prog, protect, config)
     inline.strip_debug_asserts(prog)
+    done = inline.normalize(prog, protect, config)
     n = inline.desugar_closures(prog)
     if n:
         done = list(done) + ["<%d combinator/closure call sites desugared>" % n]
+    if reordered:
+        done = list(done) + ["<parameter order restored: %s>" % ", ".join(x.rsplit("::", 1)[-1] for x in reordered)]
     return done
 
 
